@@ -72,7 +72,11 @@ impl<'a> PrettyPrinter<'a> {
             return prefix_doc;
         }
 
-        let import_items_doc = self.convert_import_items(ctx, import_items_nodes);
+        // A comment anywhere in the import pins the order of its items: the one before the first item
+        // belongs to that item as much as one inside the list does.
+        let prefix_has_comment = prefix_part.iter().any(|node| is_comment_node(node));
+        let import_items_doc =
+            self.convert_import_items(ctx, import_items_nodes, !prefix_has_comment);
         // A line comment that ends the prefix must keep its line to itself.
         let ends_with_line_comment = prefix_part
             .iter()
@@ -91,10 +95,12 @@ impl<'a> PrettyPrinter<'a> {
         &'a self,
         ctx: Context,
         mut import_items_nodes: Vec<&'a SyntaxNode>,
+        may_reorder: bool,
     ) -> ArenaDoc<'a> {
         // Sort import items if the configuration allows it.
         // The sorting is only applied if all nodes are not comments and if there are no duplicate names.
         if self.config.reorder_import_items
+            && may_reorder
             && import_items_nodes.iter().all(|node| !contains_comment(node))
             && check_import_name_duplication(&import_items_nodes)
         {
